@@ -523,6 +523,10 @@ func evalWhileLoopStmt(vm *r.VM, node *syntax.WhileLoopStmt) error {
 			}
 			return err
 		}
+		// 输出 inside the loop body ends the loop (and the enclosing method body)
+		if vm.GetReturnValue() != nil {
+			return nil
+		}
 	}
 }
 
@@ -601,6 +605,10 @@ func evalIterateStmt(vm *r.VM, node *syntax.IterateStmt) error {
 			}
 		}
 		_, err := evalPureStmtBlock(vm, node.IterateBlock)
+		if err == nil && vm.GetReturnValue() != nil {
+			// 输出 inside the loop body ends the loop (and the enclosing method body)
+			return zerr.NewBreakSignal()
+		}
 		return err
 	}
 
